@@ -1143,7 +1143,10 @@ impl World {
 				if let Some((h, stx)) = self.chain.confirmed_spender(&i.previous_output) {
 					let sid = stx.compute_txid();
 					let own = self.nodes[n].broadcaster.first_seen.lock().unwrap().contains_key(&sid);
-					if own && tip + 1 >= h + 6 && sid != txid {
+					// (a transaction generated while a restarted node was still replaying old blocks
+					// is relayed later than it was built: only nodes that were up when their own
+					// spend confirmed are judged)
+					if own && tip + 1 >= h + 6 && sid != txid && self.nodes[n].live_since_height <= h {
 						hit = Some((i.previous_output, sid, h));
 					}
 				}
